@@ -58,13 +58,6 @@ impl<'a> Cur<'a> {
             false
         }
     }
-    /// Advance over one character (whatever it is).
-    #[inline]
-    pub fn bump(&mut self) {
-        if let Some(c) = self.peek_char() {
-            self.pos += c.len_utf8();
-        }
-    }
     /// S? — returns true when at least one white space character was skipped.
     #[inline]
     pub fn skip_space(&mut self) -> bool {
